@@ -36,6 +36,8 @@ class P(Prop):
         ("TracklibVerif.Props.C17", "TV.C17.speed_table", "on any lawful table of n>=2 fixes without speed: estimate_speed returns the speed column of the CURRENT positions and times, speed reads it afterwards, nothing else changes"),
         ("TracklibVerif.Props.C17", "TV.C17.speed_table_again", "on a lawful table that lists speed, estimate_speed returns the listed column and does not change the state"),
         ("TracklibVerif.Props.C17", "TV.C17.speedCol_def", "the entries of the speed column: fixes (1,0) / (n-1,n-2) / (i+1,i-1), NaN iff the elapsed time is zero, else distance / elapsed"),
+        ("TracklibVerif.Props.C17", "TV.C17.abscurv_monotone_rounded", "abs_curv never decreases WITHOUT exact arithmetic: any preorder, only 0 <= sqrt x and (0 <= d -> a <= a + d) — the two facts of correctly rounded IEEE addition / sqrt — are assumed"),
+        ("TracklibVerif.Props.C17", "TV.C17.curvabs_table", "computeCurvAbsBetweenTwoPoints on a lawful table only reads and (exact arithmetic) returns absc (n-1), the value abs_curv ends at"),
         ("TracklibVerif.Props.C17", "TV.C17.spec_table_lawful", "C01's specification table (name -> column) satisfies the laws of a feature table"),
         ("TracklibVerif.Props.C17", "TV.C17.shared_world_lawful", "the world of Obs OBJECTS shared between tracks (per-object features list, per-track name->index dict) satisfies the laws for the track in focus whenever its objects carry AT LEAST as many slots as its dict lists (extra slots from other tracks allowed)"),
         ("TracklibVerif.Props.C17", "TV.C17.abscurv_shared", "computeAbsCurv(track k) as one step of a history on shared observations: returns [absc 0..] of the current positions whatever foreign slots the objects carry; track k reads it under abs_curv"),
@@ -45,7 +47,7 @@ class P(Prop):
     partial = []
     open_statements = ["IEEE rounding of sqrt / + / division is outside the theorems (ordered-field statement; the recurrences abscurv_prefix / abscurv_table / speed_table hold for any scalar type, so also for the Float operations in Python's order); sampled by the transfer check with rel. tolerance 1e-9",
                        "the laws are proved for the specification table and for the world of shared observations; for C01's dict-and-rows table `St` of a single track they follow from C01's simulation theorems and are not restated here",
-                       "Track.length / computeCurvAbsBetweenTwoPoints / isSorted / duration are modelled (lengthT, curvAbsT, …) and covered by positions_and_stamps_unchanged; their VALUES (sum of legs) are checked by correspondence and by the oracle, not by a theorem"]
+                       "Track.length (3D), isSorted, duration are modelled (lengthT, isSortedT, durationT) and covered by positions_and_stamps_unchanged; their VALUES are checked by correspondence (and length by the oracle on tracks of constant height), not by a theorem"]
     modelled = ("algo/analytics.py ds, speed; core/obs_coords.py ENUCoords.distance2DTo/distanceTo/__sub__/norm2D/norm; core/operators.py Integrator.execute, "
                 "Differentiator.execute; core/utils.py addListToAF; algo/cinematics.py computeAbsCurv, estimate_speed, computeCurvAbsBetweenTwoPoints; "
                 "core/track.py addAnalyticalFeature (IndexError -> NaN), createAnalyticalFeature (append + index len(dico)), removeAnalyticalFeature, "
